@@ -767,6 +767,8 @@ def main():
     results = {"mode": mode, "py": "%d.%d" % PY, "runs": 0, "observations": 0, "exit_observations": 0,
                "meta_checked": 0, "mismatches": [], "gt_errors": [], "skipped": 0}
     cache = {}
+    if mode == "purity" and shard[0] == 0:
+        value_stack_refcounts(results)
     for bi, beh in enumerate(behaviours):
         if bi % shard[1] != shard[0]:
             continue
@@ -806,6 +808,75 @@ def main():
                 mm["source"] = r.source if len(results["mismatches"]) < 40 else None
                 results["mismatches"].append(mm)
     json.dump(results, open(sys.argv[3], "w"))
+
+
+def value_stack_refcounts(results):
+    """C06: 'reference counts of objects reachable only from the value stack return to baseline' -- measured with
+    the cycle collector OFF, for a manager the trickery analysis handles, one it fails on (a static __exit__: the
+    analysis warns and falls back) and one implemented in C"""
+    import threading
+
+    class PMx:
+        def __enter__(self):
+            return self
+
+        def __exit__(self, *a):
+            return False
+
+    class SMx:
+        def __enter__(self):
+            return self
+
+        @staticmethod
+        def __exit__(*a):
+            return False
+
+    class It:
+        def __iter__(self):
+            return self
+
+        def __next__(self):
+            return 1
+    box = []
+
+    def mk():
+        it = It()
+        box.append(it)
+        return it
+
+    def target(make):
+        for x in mk():          # the iterator lives on the value stack only
+            with make():
+                yield x
+    for label, make in (("a manager with bound methods", PMx), ("a manager whose __exit__ is static (trickery fails, fallback)", SMx),
+                        ("a manager implemented in C", threading.Lock)):
+        with warnings.catch_warnings():
+            warnings.simplefilter("ignore")
+            w = target(make)
+            next(w)
+            stackscope.extract(w)           # warm-up: first-use caches
+            del box[:]
+            gc.collect()
+            was = gc.isenabled()
+            gc.disable()
+            try:
+                g = target(make)
+                next(g)
+                it = box.pop()
+                before = sys.getrefcount(it)
+                for _ in range(3):
+                    st = stackscope.extract(g)
+                    del st
+                after = sys.getrefcount(it)
+            finally:
+                if was:
+                    gc.enable()
+        if after != before:
+            results["mismatches"].append({"what": "an object reachable only from the target's value stack is referenced %d times after "
+                                                  "three extractions were dropped, %d before (cycle collector off; %s)" % (after, before, label),
+                                          "pid": 0, "carrier": "gen", "mse": False, "path": [], "w": None, "source": None})
+        g.close()
+        w.close()
 
 
 def purity(fn, r, beh, carrier, checker):
